@@ -442,6 +442,7 @@ func runCheck(prop, tier string) int {
 	var results []result
 	var crashes []violation
 	harnessErr := []string{}
+	shardsCutShort := 0
 	racePassRuns := 0
 	for _, pt := range parts {
 		pt := pt
@@ -493,6 +494,7 @@ func runCheck(prop, tier string) int {
 			go func(sh int) {
 				defer wg.Done()
 				from := 0
+				stalls := 0
 				for attempt := 0; attempt < 50; attempt++ {
 					wr := runWorker(bin, pt.Test, tier, sh, nshards, from, deadline, seed, fmt.Sprintf("%s.a%d", tier, attempt))
 					b, rerr := os.ReadFile(wr.out)
@@ -522,6 +524,15 @@ func runCheck(prop, tier string) int {
 						crashes = append(crashes, violation{part: pt, Case: id, Key: "hang:" + hangKey(wr.stderr), Text: fmt.Sprintf("the case made no progress for %v (a goroutine spinning, or the bubble never becoming quiescent); goroutine dump of the killed worker:\n%s", stallLimit, tailLines(pionFrames(wr.stderr), 40))})
 						mu.Unlock()
 						from = idx + 1
+						// Every hanging case costs the whole watchdog interval. Three hangs in one shard are
+						// reported as three violations; the rest of the shard is not run (the run is an alarm
+						// already and is marked not exhaustive).
+						if stalls++; stalls >= 3 {
+							mu.Lock()
+							shardsCutShort++
+							mu.Unlock()
+							return
+						}
 						continue
 					}
 					// Confirm it is deterministic: replay that single case twice in fresh processes.
@@ -564,7 +575,7 @@ func runCheck(prop, tier string) int {
 	var viols []violation
 	var nondet []string
 	total, ran, skipped, evals, nontrivial := 0, 0, 0, 0, 0
-	exhaustive := true
+	exhaustive := shardsCutShort == 0
 	var params map[string]any
 	totalByTest := map[string]int{}
 	for _, r := range results {
